@@ -109,12 +109,100 @@ def analyse(project: Project, fi: FunctionInfo) -> List[dict]:
     return hits
 
 
+def analyse_masked(project: Project, fi: FunctionInfo, f=None) -> List[dict]:
+    """second shape: the buffer (or a view `V = B[:m]` of it taken in every round) receives its values only under a boolean
+    / index mask (`V[ind] = ...`), and is then read whole (`V + c`, `-V / 2`, `return V`, `out[...] = V`).  The entries outside
+    the mask are what the previous round left, unless the round first resets the region (`B[:m] = c`, `V[:] = c`,
+    `V.fill(c)`, `B[...] = c`).  `f` is the function's helper-inlined view when the buffer travels through a helper."""
+    f = f if f is not None else fi.node
+    if not isinstance(f, (ast.FunctionDef, ast.AsyncFunctionDef)):
+        return []
+    parents = {}
+    for n in ast.walk(f):
+        for c in ast.iter_child_nodes(n):
+            parents[id(c)] = n
+    stores = {}
+    for n in ast.walk(f):
+        if isinstance(n, ast.Name) and isinstance(n.ctx, ast.Store):
+            stores.setdefault(n.id, []).append(n)
+    hits = []
+    for n in ast.walk(f):
+        if not (isinstance(n, ast.Assign) and len(n.targets) == 1 and isinstance(n.targets[0], ast.Name) and isinstance(n.value, ast.Call)):
+            continue
+        fn = n.value.func
+        nm = fn.attr if isinstance(fn, ast.Attribute) else getattr(fn, "id", "")
+        B = n.targets[0].id
+        if nm not in ALLOC or len(stores.get(B, [])) != 1:
+            continue
+        for lp in [x for x in ast.walk(f) if isinstance(x, (ast.For, ast.While)) and x.lineno > n.lineno
+                   and not any(y is n for y in ast.walk(x))]:
+            body = [x for st in lp.body for x in ast.walk(st)]
+            # names that are, inside the loop, a view of the buffer taken afresh in every round
+            views = {B}
+            for x in body:
+                if isinstance(x, ast.Assign) and len(x.targets) == 1 and isinstance(x.targets[0], ast.Name) \
+                        and isinstance(x.value, ast.Subscript) and isinstance(x.value.value, ast.Name) and x.value.value.id == B \
+                        and isinstance(x.value.slice, ast.Slice):
+                    views.add(x.targets[0].id)
+            if len(views) == 1 and not any(isinstance(x, ast.Name) and x.id == B for x in body):
+                continue
+            masked, resets, whole_reads, rebound = [], [], [], []
+            order = {id(x): k for k, x in enumerate(body)}
+            for x in body:
+                if isinstance(x, ast.Assign):
+                    for t in x.targets:
+                        if isinstance(t, ast.Subscript) and isinstance(t.value, ast.Name) and t.value.id in views:
+                            sl = t.slice
+                            if isinstance(sl, ast.Slice) or (isinstance(sl, ast.Constant) and sl.value is Ellipsis) \
+                                    or (isinstance(sl, ast.Tuple) and all(isinstance(e_, ast.Slice) for e_ in sl.elts)):
+                                resets.append(x)          # a store that covers the region
+                            elif isinstance(sl, (ast.Name, ast.Compare, ast.BinOp, ast.UnaryOp)):
+                                masked.append(x)          # a store under a mask / an index array
+                        elif isinstance(t, ast.Name) and t.id in views and t.id != B and not (
+                                isinstance(x.value, ast.Subscript) and isinstance(x.value.value, ast.Name) and x.value.value.id == B):
+                            rebound.append(x)             # the view name is re-bound to a fresh value later on
+                elif isinstance(x, ast.Expr) and isinstance(x.value, ast.Call) and isinstance(x.value.func, ast.Attribute) \
+                        and x.value.func.attr == "fill" and isinstance(x.value.func.value, ast.Name) and x.value.func.value.id in views:
+                    resets.append(x)
+            if not masked:
+                continue
+            first_masked = min(masked, key=lambda x: order[id(x)])
+            if any(order[id(r_)] < order[id(first_masked)] for r_ in resets):
+                continue   # the round resets the region before filling it
+            # a whole read of a view after the first masked store and before the name is re-bound
+            limit = min([order[id(r_)] for r_ in rebound if order[id(r_)] > order[id(first_masked)]] + [len(body) + 1])
+            for x in body:
+                if isinstance(x, ast.Name) and x.id in views and isinstance(x.ctx, ast.Load) and order[id(x)] > order[id(first_masked)]:
+                    par = parents.get(id(x))
+                    if isinstance(par, ast.Subscript) and par.value is x:
+                        continue   # a partial read / the store target itself
+                    st_ = par
+                    while st_ is not None and not isinstance(st_, ast.stmt):
+                        st_ = parents.get(id(st_))
+                    if st_ is not None and order.get(id(st_), 0) > limit:
+                        continue
+                    whole_reads.append((x, st_))
+            if whole_reads:
+                x, st_ = whole_reads[0]
+                hits.append(dict(node=x, buffer=B, m="mask",
+                                 why=f"`{B}` is a scratch buffer allocated once (line {n.lineno}) and handed to every round of the loop; "
+                                     f"inside a round it receives values only where a mask holds (`{ast.unparse(first_masked)[:50]}…`) and is "
+                                     f"then read whole (`{ast.unparse(st_)[:50] if st_ is not None else x.id}…`) without being reset first: "
+                                     f"outside the mask it still holds the previous round's values"))
+                break
+    return hits
+
+
 def positive_examples() -> dict:
     import os
     from ..core.loader import AnalysisError
     here = os.path.join(os.path.dirname(os.path.dirname(os.path.abspath(__file__))), "selftest", "positive")
     pp = Project(here, pkg="pospkg")
-    got = {fi.name: len(analyse(pp, fi)) for q, fi in pp.functions.items() if q.startswith("pospkg.scratch.")}
+    got = {fi.name: len(analyse(pp, fi)) + len(analyse_masked(pp, fi)) for q, fi in pp.functions.items() if q.startswith("pospkg.scratch.")}
+    if not got.get("masked_fill_read_whole"):
+        raise AnalysisError("BUF-STALE positive example (masked fill) was not found (the rule is not working)")
+    if got.get("masked_fill_after_reset"):
+        raise AnalysisError("BUF-STALE clean example `masked_fill_after_reset` was flagged")
     if not got.get("blocked_sum_reads_whole_buffer"):
         raise AnalysisError("BUF-STALE positive example was not found (the rule is not working)")
     for nme in ("blocked_sum_reads_written_part", "buffer_filled_whole"):
@@ -129,7 +217,16 @@ def check(project: Project, rep, rule: str = "BUF-STALE"):
     fns = reachable_functions(project, sorted(rep.functions_analysed))
     n = 0
     for fi in fns:
-        for h in analyse(project, fi):
+        hs = analyse(project, fi) + analyse_masked(project, fi)
+        if not hs and any(isinstance(x, (ast.For, ast.While)) for x in ast.walk(fi.node)):
+            try:
+                from .common import fn_view
+                view = fn_view(project, fi)
+            except Exception:
+                view = None
+            if view is not None and view is not fi.node:
+                hs = analyse_masked(project, fi, view)   # the buffer travels through a helper
+        for h in hs:
             n += 1
             rep.refuted(rule, fi, h["node"], h["why"], construct=f"{fi.qualname}: whole read of scratch buffer `{h['buffer']}`")
     if not n:
